@@ -65,7 +65,7 @@ Proof.
   2:{ cbn [bind]. apply rel_ok. cbn. repeat split; auto. exists F1. repeat split; auto using sub_incl; apply Fr1. }
   unfold rem_size, rem_threshold, rem_rebuild, rem_rewrite_size, rem_max.
   change (Z.mul 2 1000) with 2000.
-  destruct (SM.tsize t - 1 <? Z.quot (SM.maxsize t * SM.beta t + 1000) 2000).
+  case_if.
   - assert (Hc : (SM.count del <= SM.count (SM.root t))%nat).
     { rewrite <- (trepr_count _ _ _ _ R1), <- (trepr_count _ _ _ _ R). apply NoDup_incl_length; [eapply trepr_nodup; exact R1|exact I1]. }
     rewrite !bind_assoc. eapply rel_bind; [apply (C02_rewrite_is_source zero del h1 t1 F1 (SM.tsize t - 1) fuel R1)|].
